@@ -250,6 +250,12 @@ end
 /-! ### `Deserialize for Any` from JSON (serde_json hands non-negative integers over as `u64`) -/
 def jsonIntWidth (n : Int) : IntW := if n < 0 then ⟨true, 64⟩ else ⟨false, 64⟩
 
+/-- whether the entries hold the text key `k` -/
+def entriesHaveStr (k : List Nat) : AnyEntries → Bool
+  | .nil => false
+  | .cons (.str k') _ es => k' == k || entriesHaveStr k es
+  | .cons _ _ es => entriesHaveStr k es
+
 mutual
   def ofJson : Doc → Option Any
     | .null => some .null
@@ -269,8 +275,9 @@ mutual
   def ofJsonM : Members → Option AnyEntries
     | .nil => some .nil
     | .cons (.text k) v ms =>
+      -- the visitor inserts into a map: of two members with one name the later stays
       (match ofJson v, ofJsonM ms with
-        | some a, some as => some (.cons (.str k) a as)
+        | some a, some as => some (if entriesHaveStr k as then as else .cons (.str k) a as)
         | _, _ => none)
     | .cons (.flt _) _ _ => none     -- keys of a parsed JSON document are plain text
 end
